@@ -1,7 +1,9 @@
 package main
 
 import (
+	"fmt"
 	"go/types"
+	"os"
 	"strings"
 
 	"golang.org/x/tools/go/ssa"
@@ -205,6 +207,11 @@ func propC18rest(a *Analysis, r *Registry, b *B) {
 		}
 		a.CheckNoMutation(r, "A-1 no-mutation", fn, nil)
 	}
+	if d := os.Getenv("GMSA_DEBUG_APPENDS"); d != "" {
+		if f := a.W.Fn(d); f != nil {
+			debugAppends(X, f)
+		}
+	}
 	// what is appended in SubgraphRemove / SubgraphKeep
 	if fn := b.Fn(rB, "graph.SubgraphRemove"); fn != nil {
 		b.guard(rB, "graph.SubgraphRemove/edge", func() {
@@ -278,6 +285,243 @@ func propC18rest(a *Analysis, r *Registry, b *B) {
 				r.OK(rB, "graph.SubgraphRemove/target-lookup", b.pos(fn), "edge targets are looked up by their underlying id")
 			} else {
 				r.Fail(rB, "graph.SubgraphRemove/target-lookup", b.pos(fn), "edge targets are not looked up by their underlying id")
+			}
+		})
+	}
+	// SubgraphRemove yields exactly the requested subgraph: every node of g is gone through and
+	// kept exactly when it is not in the removal set; every kept node's every out-edge is gone
+	// through and kept exactly when neither its target nor the edge itself is removed; the sets
+	// hold every element of `nodes` / `edges`; a kept node is numbered by its position.
+	if fn := b.Fn(rB, "graph.SubgraphRemove"); fn != nil {
+		b.guard(rB, "graph.SubgraphRemove/exactly", func() {
+			fc := X.FCFor(fn)
+			env := X.EnvFor(fn, "g", "nodes", "edges")
+			name := "graph.SubgraphRemove"
+			// the three maps, by what they are filled with
+			var rmNodes, rmEdges, oldToNew *RF
+			var o2nUpd *ssa.MapUpdate
+			nMapUpd := 0
+			fc.Ctx.Instrs(func(in ssa.Instruction) {
+				mu, ok := in.(*ssa.MapUpdate)
+				if !ok {
+					return
+				}
+				nMapUpd++
+				key := fc.Val(mu.Key)
+				where := a.W.InstrPos(mu)
+				if ka := key.SingleAtom(); ka != nil && ka.Name == "idx" && ka.Args[0].Equal(env.Vars["nodes"].RF) {
+					rmNodes = fc.Val(mu.Map)
+					b.FullScan("C-scan coverage", name+"/removed-nodes-collected", where, fc, ka.Args[1], env.MustParse("len(nodes)"))
+				} else if ka != nil && ka.Name == "idx" && ka.Args[0].Equal(env.Vars["edges"].RF) {
+					rmEdges = fc.Val(mu.Map)
+					b.FullScan("C-scan coverage", name+"/removed-edges-collected", where, fc, ka.Args[1], env.MustParse("len(edges)"))
+				} else {
+					oldToNew, o2nUpd = fc.Val(mu.Map), mu
+				}
+			})
+			if rmNodes == nil || rmEdges == nil || oldToNew == nil {
+				if nMapUpd < 3 {
+					// part of the construction lives in helpers with their own loops: this rule
+					// is stated on the one-function shape only (the looser rules above still apply)
+					return
+				}
+				r.Undecided(rB, name+"/exactly", b.pos(fn), "anchor: the removal sets and the old→new numbering are not three maps filled from nodes, edges and the kept nodes")
+				return
+			}
+			nNode, nOut, nOld := 0, 0, 0
+			for _, site := range loopAppendSites(X, fc) {
+				c := site.C
+				vals := site.FC.AppendedValues(c)
+				if len(vals) != 1 {
+					continue
+				}
+				where := a.W.InstrPos(c)
+				base := site.FC.Val(c.Call.Args[0])
+				when := site.When
+				e := X.EnvFor(fn, "g", "nodes", "edges")
+				e.Set("rmNodes", rmNodes, nil)
+				e.Set("rmEdges", rmEdges, nil)
+				e.Set("oldToNew", oldToNew, nil)
+				if va := vals[0].SingleAtom(); va != nil && va.Name == "mk:listSubgraphNode" {
+					nNode++
+					K := va.Args[1]
+					b.FullScan("C-scan coverage", name+"/every-node", where, fc, K, env.MustParse("g.NumNodes()"))
+					b.EqRF(rB, name+"/node-kept-when", where, when, S.Not(S.MakeFn("lookupok", rmNodes, K)), "a node is kept exactly when it is not in the removal set")
+					if bi, _ := recurrenceOrNil(fc, base); bi == nil {
+						r.Fail(rB, name+"/starts-empty", where, "the list of kept nodes is not carried round the node loop")
+					} else {
+						b.EqRF(rB, name+"/starts-empty", where, S.MakeFn("len", bi), S.Int(0), "the list of kept nodes starts empty")
+					}
+					if o2nUpd != nil {
+						b.EqRF(rB, name+"/numbering/key", a.W.InstrPos(o2nUpd), fc.Val(o2nUpd.Key), K, "the numbering is recorded under the node's old id")
+						b.EqRF(rB, name+"/numbering/value", a.W.InstrPos(o2nUpd), fc.Val(o2nUpd.Value), S.MakeFn("len", base), "the new id is the node's position in the list of kept nodes")
+						b.EqRF(rB, name+"/numbering/when", a.W.InstrPos(o2nUpd), fc.ReachCondFrom(loopBodyEntry(fc, o2nUpd.Block()), o2nUpd.Block()), when, "recorded exactly when the node is kept")
+					}
+					continue
+				}
+				ba := base.SingleAtom()
+				if ba == nil || !strings.HasPrefix(ba.Name, "fld:listSubgraphNode.") {
+					continue
+				}
+				el := unref(ba.Args[0]).SingleAtom()
+				if el == nil || (el.Name != "idx" && el.Name != "&idx") {
+					r.Fail(rB, name+"/edge-kept", where, "the edge list appended to is not that of an element of the kept-node list")
+					continue
+				}
+				I := el.Args[1]
+				N := S.MakeFn("fld:listSubgraphNode.oldNode", S.MakeFn("idx", el.Args[0], el.Args[1]))
+				outN := S.MakeFn("call:Out", env.Vars["g"].RF, N)
+				// J: the position in the old adjacency list
+				var J *RF
+				for _, ia := range FindFn(when, "idx") {
+					if ia.Args[0].Equal(outN) {
+						J = ia.Args[1]
+					}
+				}
+				if J == nil {
+					r.Fail(rB, name+"/edge-kept", where, "the condition for keeping an edge does not look at the old adjacency list of the kept node: "+clip(when.String(), 160))
+					continue
+				}
+				tgt := S.MakeFn("idx", outN, J)
+				want := S.And(S.Not(S.MakeFn("lookupok", rmNodes, tgt)), S.Not(S.MakeFn("lookupok", rmEdges, S.MakeFn("mk:Edge", N, J))))
+				switch ba.Name {
+				case "fld:listSubgraphNode.out":
+					nOut++
+					b.FullScan("C-scan coverage", name+"/every-kept-node", where, fc, I, S.MakeFn("len", el.Args[0]))
+					b.FullScan("C-scan coverage", name+"/every-out-edge", where, fc, J, S.MakeFn("len", outN))
+					b.EqRF(rB, name+"/edge-kept-when", where, when, want, "an edge is kept exactly when neither its target nor the edge itself is removed")
+					b.EqRF(rB, name+"/edge-target", where, vals[0], S.MakeFn("lookup", oldToNew, tgt), "the new target is the old target's new id")
+				case "fld:listSubgraphNode.oldEdges":
+					nOld++
+					b.EqRF(rB, name+"/old-edge-when", where, when, want, "the old edge index is recorded exactly when the edge is kept")
+					b.EqRF(rB, name+"/old-edge-index", where, vals[0], J, "the old edge index is the position in the old adjacency list")
+				}
+			}
+			if nOut == 0 && nOld == 0 && nNode <= 1 {
+				// the edge lists are built elsewhere (locals stored into the node, a helper with its
+				// own loop): not the shape this rule is stated on
+			} else if nNode != 1 || nOut != 1 || nOld != 1 {
+				r.Fail(rB, name+"/exactly", b.pos(fn), fmt.Sprintf("expected one append of a kept node, one of a new target and one of an old edge index, found %d/%d/%d", nNode, nOut, nOld))
+			}
+		})
+	}
+	// SubgraphKeep: subgraph node i is nodes[i] — the numbering records i under nodes[i] for every
+	// i, node i's oldNode is nodes[i] for every i; every requested edge is gone through and
+	// appended (always) to the list of the new node its source maps to.
+	if fn := b.Fn(rB, "graph.SubgraphKeep"); fn != nil {
+		b.guard(rB, "graph.SubgraphKeep/exactly", func() {
+			fc := X.FCFor(fn)
+			env := X.EnvFor(fn, "g", "nodes", "edges")
+			name := "graph.SubgraphKeep"
+			var oldToNew *RF
+			var numBody *ssa.BasicBlock
+			nUpd := 0
+			fc.Ctx.Instrs(func(in ssa.Instruction) {
+				mu, ok := in.(*ssa.MapUpdate)
+				if !ok {
+					return
+				}
+				nUpd++
+				where := a.W.InstrPos(mu)
+				key := fc.Val(mu.Key)
+				ka := key.SingleAtom()
+				if ka == nil || ka.Name != "idx" || !ka.Args[0].Equal(env.Vars["nodes"].RF) {
+					r.Fail(rB, name+"/numbering/key", where, "the numbering is not recorded under an element of nodes: "+clip(key.String(), 100))
+					return
+				}
+				oldToNew = fc.Val(mu.Map)
+				numBody = loopBodyEntry(fc, mu.Block())
+				b.EqRF(rB, name+"/numbering/value", where, fc.Val(mu.Value), ka.Args[1], "subgraph node i is nodes[i]: oldToNew[nodes[i]] ≡ i")
+				b.FullScan("C-scan coverage", name+"/numbering/every-node", where, fc, ka.Args[1], env.MustParse("len(nodes)"))
+			})
+			if nUpd != 1 || oldToNew == nil {
+				r.Fail(rB, name+"/numbering", b.pos(fn), fmt.Sprintf("expected one map update recording the numbering, found %d", nUpd))
+				return
+			}
+			// the requests rejected: exactly a node outside g or one named twice
+			func() {
+				rejected := S.False()
+				var K *RF
+				np := 0
+				fc.Ctx.Instrs(func(in ssa.Instruction) {
+					pn, ok := in.(*ssa.Panic)
+					if !ok || numBody == nil || !fc.Ctx.Dominates(numBody, pn.Block()) {
+						return
+					}
+					np++
+					rejected = S.Or(rejected, fc.ReachCondFrom(numBody, pn.Block()))
+				})
+				for _, at := range FindFn(rejected, "idx") {
+					if at.Args[0].Equal(env.Vars["nodes"].RF) {
+						K = S.atomRF(at.ID)
+					}
+				}
+				if np == 0 {
+					return // no validation: nothing is rejected
+				}
+				if K == nil {
+					r.Fail(rB, name+"/rejects", b.pos(fn), "a request is rejected for a reason that does not look at the requested node: "+clip(rejected.String(), 160))
+					return
+				}
+				want := S.Or(S.Or(S.Cmp("<", K, S.Int(0)), S.Cmp("<=", env.MustParse("g.NumNodes()"), K)), S.MakeFn("lookupok", oldToNew, K))
+				b.EqRF(rB, name+"/rejects", b.pos(fn), rejected, want, "a request is rejected exactly when a node is outside g or named twice")
+			}()
+			// newNodes[i].oldNode = nodes[i]
+			nOld := 0
+			fc.Ctx.Instrs(func(in ssa.Instruction) {
+				st, ok := in.(*ssa.Store)
+				if !ok {
+					return
+				}
+				fa, ok := st.Addr.(*ssa.FieldAddr)
+				if !ok || X.typeName(fa.X.Type()) != "listSubgraphNode" || fc.Ctx.LoopOf(st.Block()) == nil {
+					return
+				}
+				ia, ok := fa.X.(*ssa.IndexAddr)
+				if !ok {
+					return
+				}
+				fld := derefT(fa.X.Type()).Underlying().(*types.Struct).Field(fa.Field).Name()
+				if fld != "oldNode" {
+					return
+				}
+				nOld++
+				where := a.W.InstrPos(st)
+				i := fc.Val(ia.Index)
+				b.EqRF(rB, name+"/oldNode", where, fc.Val(st.Val), S.MakeFn("idx", env.Vars["nodes"].RF, i), "newNodes[i].oldNode ≡ nodes[i]")
+				b.FullScan("C-scan coverage", name+"/oldNode/every-node", where, fc, i, env.MustParse("len(nodes)"))
+				b.EqRF(rB, name+"/len(newNodes)", where, S.MakeFn("len", fc.Val(ia.X)), env.MustParse("len(nodes)"), "one new node per requested node")
+			})
+			if nOld != 1 {
+				r.Fail(rB, name+"/oldNode", b.pos(fn), fmt.Sprintf("expected one store of newNodes[i].oldNode in a loop, found %d", nOld))
+			}
+			for _, site := range loopAppendSites(X, fc) {
+				c := site.C
+				base := site.FC.Val(c.Call.Args[0]).SingleAtom()
+				if base == nil || !strings.HasPrefix(base.Name, "fld:listSubgraphNode.") {
+					continue
+				}
+				where := a.W.InstrPos(c)
+				when := site.When
+				var oe *RF
+				for _, at := range FindFn(S.atomRF(base.ID), "idx") {
+					if at.Args[0].Equal(env.Vars["edges"].RF) {
+						oe = S.atomRF(at.ID)
+					}
+				}
+				if oe == nil {
+					r.Fail(rB, name+"/edge-source", where, "the list appended to is not chosen by an element of edges")
+					continue
+				}
+				tag := strings.TrimPrefix(base.Name, "fld:listSubgraphNode.")
+				b.EqRF(rB, name+"/"+tag+"/always", where, when, S.True(), "every requested edge is appended")
+				el := unref(base.Args[0]).SingleAtom()
+				if el != nil && (el.Name == "idx" || el.Name == "&idx") {
+					b.EqRF(rB, name+"/"+tag+"/source", where, el.Args[1], S.MakeFn("lookup", oldToNew, S.MakeFn("fld:Edge.Node", oe)), "appended to the new node the edge's source maps to")
+				} else {
+					r.Fail(rB, name+"/"+tag+"/source", where, "the list appended to is not that of a new node: "+clip(base.Args[0].String(), 200))
+				}
+				b.FullScan("C-scan coverage", name+"/"+tag+"/every-edge", where, fc, oe.SingleAtom().Args[1], env.MustParse("len(edges)"))
 			}
 		})
 	}
@@ -360,6 +604,34 @@ func propC18rest(a *Analysis, r *Registry, b *B) {
 	b.Formula(rB, "graph/graphalg.(*SCCGraph).Subnodes", "graph/graphalg.(*SCCGraph).Subnodes", []string{"g", "cid"}, nil, 0, "slice(g.subnodes, g.subnodeIndexes[cid], g.subnodeIndexes[cid+1], _)", nil)
 	b.Formula(rB, "graph/graphalg.(*SCCGraph).NumNodes", "graph/graphalg.(*SCCGraph).NumNodes", []string{"g"}, nil, 0, "len(g.subnodeIndexes)-1", nil)
 	b.Formula(rB, "graph/graphalg.(*SCCGraph).Out", "graph/graphalg.(*SCCGraph).Out", []string{"g", "cid"}, nil, 0, "ite(g.out==nil, nil, slice(g.out, g.outIndexes[cid], g.outIndexes[cid+1], _))", nil)
+	// an element read through a slice expression loses the slice's upper bound in the value
+	// (w[lo:hi][e] is w[lo+e] whenever it does not panic): the bounds of the slice expression
+	// itself are compared too — `hi` is what keeps e inside this node's edges
+	if fn := b.Fn(rB, "graph/graphalg.(*simplified).OutWeight"); fn != nil {
+		b.guard(rB, "graph/graphalg.(*simplified).OutWeight/bounds", func() {
+			fc := X.FCFor(fn)
+			env := X.EnvFor(fn, "g", "n", "e")
+			n := 0
+			fc.Ctx.Instrs(func(in ssa.Instruction) {
+				sl, ok := in.(*ssa.Slice)
+				if !ok {
+					return
+				}
+				n++
+				where := a.W.InstrPos(sl)
+				b.Eq(rB, "graph/graphalg.(*simplified).OutWeight/bounds/base", where, fc.Val(sl.X), env, "g.weights")
+				if sl.Low == nil || sl.High == nil {
+					r.Fail(rB, "graph/graphalg.(*simplified).OutWeight/bounds", where, "the slice of this node's weights has an open end")
+					return
+				}
+				b.Eq(rB, "graph/graphalg.(*simplified).OutWeight/bounds/low", where, fc.Val(sl.Low), env, "g.indexes[n]")
+				b.Eq(rB, "graph/graphalg.(*simplified).OutWeight/bounds/high", where, fc.Val(sl.High), env, "g.indexes[n+1]")
+			})
+			if n > 1 {
+				r.Fail(rB, "graph/graphalg.(*simplified).OutWeight/bounds", b.pos(fn), fmt.Sprintf("expected one slice expression selecting this node's weights, found %d", n))
+			}
+		})
+	}
 	// SimplifyMulti
 	if fn := b.Fn(rB, "graph/graphalg.SimplifyMulti"); fn != nil {
 		b.guard(rB, "graph/graphalg.SimplifyMulti", func() {
@@ -422,6 +694,78 @@ func propC18rest(a *Analysis, r *Registry, b *B) {
 					}
 				}
 			})
+			// exactly: for the node n whose adjacency list is walked, indexes[n+1] receives the
+			// number of edges emitted so far once n's list is done, in every iteration; n runs over
+			// every node; indexes has one more entry than there are nodes
+			func() {
+				outs := fc.CallsTo("invoke:Out")
+				if len(outs) != 1 {
+					okIdx = false
+					return
+				}
+				N := fc.Val(outs[0].Call.Args[0])
+				// the weighted view: g itself when it is weighted, unit weights otherwise
+				gwv := fc.Val(outs[0].Call.Value)
+				{
+					g0 := X.ParamRF(fn, 0)
+					want := S.Ite(S.MakeFn("typeassert:graph.Weighted#1", g0), S.MakeFn("typeassert:graph.Weighted#0", g0), S.MakeFn("mk:WeightedUnit", g0))
+					b.EqRF(rB, "graph/graphalg.SimplifyMulti/weights-of", a.W.InstrPos(outs[0]), gwv, want, "edges and weights are read from g itself when it is graph.Weighted, from WeightedUnit{g} otherwise")
+				}
+				var edgesBase *RF
+				for _, c := range fc.CallsTo("builtin:append") {
+					if isIntType(c.Type().Underlying().(*types.Slice).Elem()) && fc.Ctx.LoopOf(c.Block()) != nil {
+						edgesBase = fc.Val(c.Call.Args[0])
+					}
+				}
+				n := 0
+				fc.Ctx.Instrs(func(in ssa.Instruction) {
+					st, ok := in.(*ssa.Store)
+					if !ok {
+						return
+					}
+					ia, ok := st.Addr.(*ssa.IndexAddr)
+					if !ok || !isIntType(st.Val.Type()) {
+						return
+					}
+					at := fc.Val(st.Val).SingleAtom()
+					if at == nil || at.Name != "len" {
+						return
+					}
+					n++
+					where := a.W.InstrPos(st)
+					cn := "graph/graphalg.SimplifyMulti/indexes"
+					b.EqRF(rB, cn+"/slot", where, fc.Val(ia.Index), N.Add(S.Int(1)), "the slot written is n+1 for the node n whose edges were just emitted")
+					if edgesBase == nil || !at.Args[0].Equal(edgesBase) {
+						r.Fail(rB, cn+"/value", where, "the value is not the length of the edge list after this node's edges: "+clip(at.Args[0].String(), 100))
+					} else {
+						r.OK(rB, cn+"/value", where, "the value is the length of the edge list once the node's edges are emitted")
+					}
+					idxs := fc.Val(ia.X)
+					nn := S.MakeFn("call:NumNodes", fc.Val(outs[0].Call.Value))
+					b.EqRF(rB, cn+"/len", where, S.MakeFn("len", idxs), nn.Add(S.Int(1)), "indexes has NumNodes()+1 entries")
+					b.FullScan("C-scan coverage", cn+"/every-node", where, fc, N, nn)
+					lp := fc.Ctx.LoopOf(st.Block())
+					every := lp != nil && len(lp.Latch) > 0
+					if lp != nil {
+						for _, lt := range lp.Latch {
+							if !fc.Ctx.Dominates(st.Block(), lt) {
+								every = false
+							}
+						}
+						if il := fc.Ctx.LoopOf(outs[0].Block()); il != nil && il.Header != lp.Header && il.Body[st.Block().Index] {
+							every = false
+						}
+					}
+					if every {
+						r.OK(rB, cn+"/every-iteration", where, "written in every iteration of the node loop, after the node's edges")
+					} else {
+						r.Fail(rB, cn+"/every-iteration", where, "indexes[n+1] is not written once per node after the node's edges")
+					}
+				})
+				if n != 1 {
+					okIdx = false
+				}
+			}()
 			if okIdx {
 				r.OK(rB, "graph/graphalg.SimplifyMulti/indexes", b.pos(fn), "indexes[n+1] = len(edges) after node n")
 			} else {
@@ -698,5 +1042,95 @@ func propC18simplifyMap(a *Analysis, r *Registry, b *B, fn *ssa.Function, fc *FC
 		r.OK(rule, name+"/map/per-node", b.pos(fn), emptied)
 	} else {
 		r.Fail(rule, name+"/map/per-node", b.pos(fn), "the target → edge-index map is not emptied at the start of every node: an edge of a later node would be merged into an earlier node's edge to the same target")
+	}
+}
+
+// debugAppends prints, for every append inside a loop of fn, what is appended, to what, and the
+// condition (from the start of the iteration) under which it happens (GMSA_DEBUG_APPENDS=<fn>).
+func debugAppends(X *Extractor, fn *ssa.Function) {
+	fc := X.FCFor(fn)
+	for _, c := range fc.CallsTo("builtin:append") {
+		if fc.Ctx.LoopOf(c.Block()) == nil {
+			continue
+		}
+		func() {
+			defer func() { recover() }()
+			fmt.Fprintf(os.Stderr, "APPEND %s\n  base=%s\n", X.W.InstrPos(c), fc.Val(c.Call.Args[0]))
+			for _, v := range fc.AppendedValues(c) {
+				fmt.Fprintf(os.Stderr, "  val=%s\n", v)
+			}
+			fmt.Fprintf(os.Stderr, "  when=%s\n", fc.ReachCondFrom(loopBodyEntry(fc, c.Block()), c.Block()))
+		}()
+	}
+	fc.Ctx.Instrs(func(in ssa.Instruction) {
+		if mu, ok := in.(*ssa.MapUpdate); ok {
+			fmt.Fprintf(os.Stderr, "MAPUPDATE %s map=%s key=%s val=%s\n", X.W.InstrPos(mu), fc.Val(mu.Map), fc.Val(mu.Key), fc.Val(mu.Value))
+		}
+	})
+}
+
+// appSite: an append executed once per iteration of a loop of fc — written in the loop itself, or
+// in a loop-free module helper called there (`src.addEdge(dst, which)`), whose parameters are then
+// bound to the call's arguments; When is the condition, from the start of the iteration, under
+// which it executes.
+type appSite struct {
+	FC   *FC
+	C    *ssa.Call
+	When *RF
+}
+
+func loopAppendSites(X *Extractor, fc *FC) []appSite {
+	S := X.S
+	var out []appSite
+	fc.Ctx.Instrs(func(in ssa.Instruction) {
+		c, ok := in.(*ssa.Call)
+		if !ok || fc.Ctx.LoopOf(c.Block()) == nil {
+			return
+		}
+		if bi, isB := c.Call.Value.(*ssa.Builtin); isB {
+			if bi.Name() == "append" {
+				out = append(out, appSite{fc, c, fc.ReachCondFrom(loopBodyEntry(fc, c.Block()), c.Block())})
+			}
+			return
+		}
+		f := c.Common().StaticCallee()
+		if f == nil || f.Blocks == nil || !X.W.IsLibFunc(f) || len(c.Common().Args) != len(f.Params) {
+			return
+		}
+		bind := map[*ssa.Parameter]*RF{}
+		args := make([]*RF, len(f.Params))
+		for i, p := range f.Params {
+			args[i] = fc.Val(c.Common().Args[i])
+			bind[p] = args[i]
+		}
+		sub := X.newFC(f, bind, nil)
+		sub.bindArgs = args
+		if len(sub.Ctx.Loops()) > 0 {
+			return
+		}
+		var outer *RF
+		func() {
+			defer func() { recover() }()
+			outer = fc.ReachCondFrom(loopBodyEntry(fc, c.Block()), c.Block())
+		}()
+		if outer == nil {
+			return
+		}
+		for _, ac := range sub.CallsTo("builtin:append") {
+			out = append(out, appSite{sub, ac, S.And(outer, sub.ReachCond(ac.Block()))})
+		}
+	})
+	return out
+}
+
+// unref strips deref(ref(x)) / ref / deref wrappers (a node reached through a pointer to it).
+func unref(r *RF) *RF {
+	for {
+		at := r.SingleAtom()
+		if at != nil && (at.Name == "ref" || at.Name == "deref") && len(at.Args) == 1 {
+			r = at.Args[0]
+			continue
+		}
+		return r
 	}
 }
